@@ -41,8 +41,8 @@ struct Automation
     float       param_base_value;
     char        param_path[128];
     char        param_type;
-    float       param_min;
-    float       param_max;
+    double      param_min; //(not every int bound is a float)
+    double      param_max;
     float       param_step;       //resolution of parameter. Useful for:
                                   //- integer valued controls
     AutomationMapping map;
